@@ -4,6 +4,32 @@ K1 = {"file": "k1_origins.rs", "harness": "k1_origins", "kind": "closed-term",
       "what": "real generate_origins() == reference face table (id, first_quintant, orientation[5]) for all 12 faces; "
               "discharges the assumed contract of get_origins() (rule R6)"}
 
+K3 = [{"file": "k3_k6_origin.rs", "harness": "k3_relabel_face%d" % i, "kind": "closed-term",
+       "what": "face %d: quintant->segment->quintant and segment->quintant->segment are identities for all 5 quintants, the "
+               "segment map is a permutation of 0..5, the orientation returned is the same in both directions, and both equal the "
+               "frozen reference labelling (real quintant_to_segment / segment_to_quintant / is_layout_clockwise)" % i}
+      for i in range(12)]
+K4 = {"file": "k4_cell_area.rs", "harness": "k4_cell_area_is_sphere_over_count", "kind": "closed-term",
+      "what": "for r = 0..29: |cell_area(r) - AUTHALIC_AREA / N(r)| <= 1e-12 * AUTHALIC_AREA / N(r) with N = 12, 60*4^(r-1) "
+              "(IEEE * and / only), cell_area(r) bit-identical to the reference release, get_num_cells(r) identical"}
+K6 = [
+    {"file": "k3_k6_origin.rs", "harness": "k6_origin_tables", "kind": "closed-term",
+     "what": "QUINTANT_FIRST, ORIGIN_ORDER, the four layout arrays and QUINTANT_ORIENTATIONS_ARRAYS equal the reference release"},
+    {"file": "k3_k6_origin.rs", "harness": "k6_origin_floats", "kind": "closed-term",
+     "what": "real generate_origins(): quat, inverse_quat, axis, angle of all 12 faces bit-identical (to_bits) to the reference release"},
+    {"file": "k6_constants.rs", "harness": "k6_constants", "kind": "closed-term",
+     "what": "LONGITUDE_OFFSET, constants.rs, pentagon angles A..E and the 12 QUATERNIONS bit-identical to the reference release"},
+    {"file": "k6_hilbert.rs", "harness": "k6_hilbert_tables", "kind": "closed-term",
+     "what": "PATTERN, PATTERN_FLIPPED, YES/NO, quaternary_to_flips (4 cases), FLIP_SHIFT equal the reference; reverse_pattern gives the inverse permutation"},
+    {"file": "k6_hilbert.rs", "harness": "k6_quaternary_to_kj", "kind": "closed-term",
+     "what": "quaternary_to_kj(n, flips) equals the reference for all 4 digits x 4 flip states"},
+] + [
+    {"file": "k6_hilbert.rs", "harness": "k6_anchor_n%d_%s" % (n, o), "kind": "bounded", "bound": "curve depth n = %d (all %d positions), orientation %s" % (n, 4 ** n, o),
+     "tiers": ("quick", "thorough") if n <= 2 else ("thorough",),
+     "what": "real s_to_anchor(s, %d, %s) (f64 code) returns the reference release's anchor (k, flips, offset bits) for every s" % (n, o)}
+    for n in (1, 2, 3) for o in ("uv", "vu", "uw", "wu", "vw", "wv")
+]
+
 STD_ASSUME = [
     "64-bit target: `global size_of usize == 8`",
     "get_origins(): OnceLock returns the value of generate_origins() (std contract); its table contract is "
@@ -146,6 +172,68 @@ PROPS = {
                       "cell_to_boundary itself is proved.",
         "technique": "Verus contract on the extracted real cell_to_boundary with the float layer as assumed contract boundary",
     },
+    "C18": {
+        "kani": K3 + [K1],
+        "kani_jobs": 14,
+        "level": "proof",
+        "assumptions": [
+            "ONLY the sentence 'on every face the quintant <-> segment relabelling is a bijection that preserves the curve orientation "
+            "in both directions' is decided (finite: 12 faces x 5 quintants, enumerated completely by closed-term Kani harnesses on the "
+            "real functions). The regular-dodecahedron geometry of the frame, the 93-degree offset and nearest-face selection are f64 "
+            "geometry (acos/atan2/sin) and are NOT decided.",
+            "K3 builds each face's Origin from the reference (first_quintant, orientation) table; K1 proves the real generate_origins() "
+            "produces exactly that table; the relabelling functions read no other field",
+        ],
+        "search_ops": [],
+        "level_text": "Complete finite proof (Kani/CBMC, no symbolic input, unwinding assertions on) on the real quintant_to_segment, "
+                      "segment_to_quintant and is_layout_clockwise: for each of the 12 faces and 5 quintants both round trips are "
+                      "identities, the segment map is a permutation and the orientation is preserved both ways; the face table used is "
+                      "proved equal to the real generate_origins() output by K1.",
+        "level_note": "Closed-term harnesses are complete (the input space is the 60 (face, quintant) pairs). Frame geometry and "
+                      "nearest-face selection: not decided (float).",
+        "technique": "Kani closed-term harnesses (complete enumeration) appended to the real origin.rs",
+    },
+    "C04": {
+        "units": ["tree"],
+        "rlimit": 30,
+        "kani": [K4],
+        "level": "proof",
+        "assumptions": STD_ASSUME + [
+            "ONLY sentence 2 ('the per-resolution area reported by the metadata call equals sphere area / number of cells') is decided; "
+            "areas measured from cell boundaries (sentence 1) are f64 geometry and NOT decided",
+        ],
+        "search_ops": ["cell_area", "get_num_cells"],
+        "level_text": "Verus: the real get_num_cells returns 12, 60*4^(r-1) exactly for r <= 27 and values within 1e-15 relative for the "
+                      "two JS-rounded literals (28, 29), without overflow for any i32. Kani closed-term (complete, r = 0..29): the real "
+                      "cell_area(r) equals AUTHALIC_AREA / N(r) to 1e-12 relative with N the exact count.",
+        "level_note": "IEEE multiplication/division are bit-precise in CBMC; no transcendental function is involved.",
+        "technique": "Verus contract on get_num_cells + Kani closed-term harness on cell_area",
+    },
+    "C06": {
+        "units": ["codec"],
+        "rlimit": 30,
+        "kani": [K1, K4] + K3 + K6,
+        "kani_jobs": 14,
+        "kani_timeout": 2400,
+        "level": "proof",
+        "assumptions": STD_ASSUME + [
+            "the pin is the frozen reference under /verif/contracts/reference (dump + source copies of v0.6.2, pinned tree d731376) and "
+            "the harnesses generated from it ONCE by tools/mkref.py; checks never regenerate it",
+            "decided: every table / literal constant / integer stage that fixes which ID goes with which place equals the reference "
+            "(bit layout via serialize == enc, face table, relabelling, digit-shift patterns, flip tables, quaternary_to_kj, literal "
+            "constants, cell_area, s_to_anchor for curve depth <= 2 quick / <= 3 thorough - the last is BOUNDED)",
+            "NOT decided: that the f64 pipeline (polyhedral / gnomonic / authalic functions, pentagon constants computed with sin/cos, "
+            "ij_to_s on real coordinates) computes the same values as the reference for all inputs, and the 'within 1e-9 degrees' sentence",
+        ],
+        "search_ops": ["roundtrip"],
+        "level_text": "Proof that the integer labelling stages equal the frozen reference release: Verus (bit layout of the real "
+                      "serialize/deserialize/get_resolution == documented layout with the reference face table) and complete closed-term "
+                      "Kani harnesses on the real code (face table and frames bit-for-bit, relabelling 12x5, digit-shift and flip tables, "
+                      "literal constants, cell_area). The curve walk s_to_anchor is compared with the reference for all positions of "
+                      "depth <= 2 (quick) / <= 3 (thorough): bounded, labelled so.",
+        "level_note": "See assumptions: float pipeline and the 1e-9-degree sentence are out of reach of both back ends.",
+        "technique": "Verus layout contract + Kani closed-term equalities against a frozen reference; bounded Kani for the curve walk",
+    },
     "C20": {
         "units": ["tree"],
         "rlimit": 30,
@@ -177,6 +265,7 @@ SEARCH_OPS = {
     "uncompact": ["uncompact", "uncompact_total"],
     "compact": ["compact_cover", "compact_max", "compact_total"],
     "k1_origins": ["roundtrip", "deserialize"],
+    "k4_cell_area_is_sphere_over_count": ["cell_area", "get_num_cells"],
     "get_pentagon": ["cell_to_lonlat", "cell_to_boundary"],
     "cell_to_lonlat": ["cell_to_lonlat"],
     "cell_to_boundary": ["cell_to_boundary"],
@@ -204,7 +293,7 @@ NOT_APPLICABLE = {
     "C15": "projection invertibility to 1e-12 is a numerical-analysis claim about acos/atan2/slerp code; out of reach",
     "C16": "local area preservation needs real analysis of the IVEA formulas over f64 code; out of reach",
     "C19": "authalic series inverse/monotone/odd to 1e-12: Clenshaw sums of sin/cos over f64; out of reach",
-    "C04": "not built yet (tier B)", "C06": "not built yet (tier B)", "C07": "not built yet", 
+ "C07": "not built yet", 
 "C10": "not built yet",  "C13": "not built yet (tier B)",
-"C17": "not built yet (tier B)", "C18": "not built yet (tier B)", 
+"C17": "not built yet (tier B)",  
 }
